@@ -1,6 +1,6 @@
 (* C04 — conversions deep-copy by default and never modify or race on the source. *)
 From Coq Require Import List NArith ZArith Bool.
-From GV Require Import Base Ty Conf Val Plan Eval EvalFacts AllocFacts FreshFacts.
+From GV Require Import Base Ty Conf Val Plan Eval EvalFacts AllocFacts FreshFacts DeepCopyFacts.
 From GV Require Extracted Gen GenFacts.
 Import ListNotations.
 Open Scope N_scope.
@@ -40,6 +40,32 @@ Theorem C04_function_results_fresh : forall e fuel t tok st v st' ok, mark e fue
   st <= st' /\ forall a, In a (addrs v) -> st <= a < st'.
 Proof. exact mark_fresh. Qed.
 
+(* THE DEEP COPY (first sentence of C04, full strength on the evaluator): a plan without SkipCopy plan and without
+   aliasing address-of, against a method table whose bodies are such plans, yields only addresses allocated by this
+   very evaluation (an Assign: or already present in the previous content of the target) — for EVERY plan, table,
+   custom-function table, source value (arbitrary internal sharing), context and fuel. So result and source of a
+   declared method have no address in common, and an update method adds none of the source's to its target. *)
+Theorem C04_deep_copy : forall e M F, sf_table M -> forall fuel cx,
+  deep_v (eval_v e M F fuel cx) /\ deep_a (eval_a e M F fuel cx).
+Proof. exact deep_copy. Qed.
+Theorem C04_no_shared_address : forall e M F, sf_table M -> forall fuel m cx src n0 v st',
+  run e M F fuel m cx src n0 = Done (v, st') ->
+  (forall a, In a (addrs src) -> a < n0) ->
+  forall a, In a (addrs v) -> ~ In a (addrs src).
+Proof. exact run_no_shared_address. Qed.
+Theorem C04_update_no_shared_address : forall e M F, sf_table M -> forall fuel m cx src old n0 v st' mt,
+  nth_error M (N.to_nat m) = Some mt -> sf_body (g_body mt) = true ->
+  run_update e M F fuel m cx src old n0 = Done (v, st') ->
+  forall a, In a (addrs v) -> In a (addrs old) \/ n0 <= a < st'.
+Proof. exact run_update_no_shared_address. Qed.
+(* the boolean check the correspondence cases evaluate on every generated table is sound for the hypothesis *)
+Theorem C04_share_free_check_sound : forall M, sf_tableb M = true -> sf_table M.
+Proof. exact sf_tableb_sound. Qed.
+Example C04_deep_copy_applies :
+  sf_tableb f_c10_1_table = true /\
+  run [] f_c10_1_table [] 6 0 [] (VPtr 7 (VBasic 5)) 10 = Done (VPtr 10 (VBasic 5), 11).
+Proof. exact deep_copy_applies. Qed.
+
 (* which plans the generator may choose: the SkipCopy plan (the one C04_share_returns_source is about) is selected only
    when skipCopySameType is in effect for the method AND source and target type are identical — for every
    environment, settings record, method index and pair of types (the rule list and the Matches predicates are
@@ -52,13 +78,22 @@ Theorem C04_no_skipcopy_without_setting : forall e hm conf s t,
 Proof. exact GenFacts.skipcopy_rule_off. Qed.
 (* ... and the address-of a converted value (T -> *T) is never an address of the source: the aliasing form of PRef is
    not generated (finding F-C04-2, fixed by f2ba6e9: before, skipCopySameType + T -> *T emitted &source.F / &source[i]) *)
+Theorem C04_identity_only_for_basic_types : forall e hm conf s t,
+  Gen.first_rule e hm conf s t = Some 7 ->
+  f_Basic e s = true /\ f_Basic e t = true /\ m_Kind e (f_BasicType e s) = m_Kind e (f_BasicType e t).
+Proof. exact GenFacts.basic_rule_sound. Qed.
 Theorem C04_address_of_never_aliases : forall lv p, Gen.aliasing lv p = false.
 Proof. exact GenFacts.never_aliasing. Qed.
 
 Print Assumptions C04_alloc_mono.
+Print Assumptions C04_deep_copy.
+Print Assumptions C04_no_shared_address.
+Print Assumptions C04_update_no_shared_address.
+Print Assumptions C04_share_free_check_sound.
 Print Assumptions C04_skipcopy_only_with_setting_and_identical_types.
 Print Assumptions C04_no_skipcopy_without_setting.
 Print Assumptions C04_address_of_never_aliases.
+Print Assumptions C04_identity_only_for_basic_types.
 Print Assumptions C04_pointer_fresh.
 Print Assumptions C04_slice_fresh.
 Print Assumptions C04_map_fresh.
